@@ -67,6 +67,8 @@ Fixpoint hyps_all (e : env) (st : state) (ops : list op) : bool :=
        | OBatch ls => hyps_ok e (sfs st) ls
        | OBe paths old new => be_hyps e (sfs st) paths (be_old (sfs st) paths old) new
        | ORec paths new => rec_hyps e (sfs st) paths new
+       | OAdj paths procs milli =>
+           be_hyps e (sfs st) paths (get (sfs st) (hd 0 paths)) (adj_new procs milli (get (sfs st) (hd 0 paths)))
        | OExpire _ => true
        end)
       && hyps_all e (fst (step_op e st o)) r
@@ -129,6 +131,17 @@ Fixpoint hist_sig (e : env) (fs : fmap) (ops : list op) (obs : list bobs) : Z :=
           if rec_hyps e fs paths new then
             let c := prop_code e fs [rec_updaters paths new] ws fin in
             if c =? 0 then hist_sig e fin r obs' else 0
+          else 0
+      end
+  | OAdj paths procs milli :: r =>
+      match obs with
+      | [] => 0
+      | (ws, fin) :: obs' =>
+          let o := get fs (hd 0 paths) in
+          let new := adj_new procs milli o in
+          if be_hyps e fs paths o new then
+            let c := prop_code e fs [be_updaters paths new] ws fin in
+            if c =? 0 then hist_sig e fin r obs' else known_shape_be e fs (be_updaters paths new) ws c
           else 0
       end
   end.
@@ -217,7 +230,10 @@ Definition decode_leveled (inp : list Z) : case :=
                              then the containers (depth 2) whose pod is not in ex (pods with a
                              specified cpuset), in walk order
                   variant 1: recoverCPUSetIfNeed(container depth) — every directory of depth <= 2
-                  variant 2: recoverCPUSetIfNeed(pod depth) — every directory of depth <= 1 *)
+                  variant 2: recoverCPUSetIfNeed(pod depth) — every directory of depth <= 1
+           op 3 = adjust: 3 procs milli   (adjustByCPUSet: processors = cpu ids of procs, each on its own
+                  core; wanted = milli cpus; old and new are computed by the code from the files)
+           op 4 = restart: 4             (fresh executor = every cache entry gone) *)
 (* depth of every directory (par[d] < d) *)
 Definition depths (nd : nat) (par : list Z) : list Z :=
   fold_left (fun ds d => ds ++ [if (d =? 0)%nat then 0 else nth (Z.to_nat (nth (d - 1) par 0)) ds 0 + 1])
@@ -251,13 +267,19 @@ Fixpoint dec_be_ops (nd : nat) (par : list Z) (paths : list Z) (n : nat) (l : li
             | d :: _ :: t' => OExpire d :: dec_be_ops nd par paths n' t'
             | _ => []
             end
-          else
+          else if tag =? 2 then
             match t with
             | new :: variant :: nex :: t' =>
                 ORec (rec_paths nd par variant (firstn (Z.to_nat nex) t')) new
                   :: dec_be_ops nd par paths n' (skipn (Z.to_nat nex) t')
             | _ => []
             end
+          else if tag =? 3 then
+            match t with
+            | procs :: milli :: t' => OAdj paths procs milli :: dec_be_ops nd par paths n' t'
+            | _ => []
+            end
+          else map OExpire paths ++ dec_be_ops nd par paths n' t
       | [] => []
       end
   end.
